@@ -173,6 +173,10 @@ def invocations(form):
     p77, r77 = posixpath.join(root, 'chk00077'), posixpath.join(root, 'plt00077')
     inv('chk2plt-default-onto-reference', [p77, r77], lambda m: m['amr_kitchen.chk2plt.chk2plt'].chk2plt(sp(p77), target_plotfile=sp(r77), gradp=False), [],
         fail='the default output is the reference plotfile itself')
+    # the same with the two paths spelled in different styles (one relative to the cwd, one absolute)
+    other77 = posixpath.relpath(r77, form['cwd']) if sp(p77).startswith('/') else r77
+    inv('chk2plt-default-onto-reference-mixed-spelling', [p77, r77], lambda m: m['amr_kitchen.chk2plt.chk2plt'].chk2plt(sp(p77), target_plotfile=other77, gradp=False), [],
+        fail='the default output is the reference plotfile itself')
     # ---- marinate (default only), read-only tools
     inv('marinate', [p3], argv_call('amr_kitchen.marinate', ['marinate', sp(p3)]), [p3 + '.pkl'])
     inv('menu', [p3], lambda m: m['amr_kitchen.menu.menu'].Menu(sp(p3), min_max=True), [])
@@ -402,8 +406,7 @@ def run_case(case):
     for sig, v in viol.items():
         if not common.claim('C13', sig):
             continue
-        d = make_replay(v)
-        status, out = common.run_replay(d)
+        d, status, out = common.replay_portfolio(lambda: make_replay(v))
         v2 = {'signature': sig, 'what': v['what'], 'replay': d}
         if status == 'reproduced':
             res['violations'].append(v2)
